@@ -14,6 +14,7 @@ func registerModels(in *Interp) {
 	registerFSTable(in)
 	registerHTTPModels(in)
 	registerSandboxModels(in)
+	registerCLIModels(in)
 }
 
 // ---------------------------------------------------------------- path / file-system stubs
